@@ -41,13 +41,15 @@ META = dict(
 )
 
 TESTS = {
-    "gross_range_test": [dict(fail_span=[0, 3.5], suspect_span=[2, 3.5]),
+    "gross_range_test": [dict(fail_span=[0, 3.5], suspect_span=[2, 3.5]), dict(fail_span=[3.5, 0], suspect_span=[3, 0.5]),
                          # non-dyadic limits with values equal to their float32 roundings
                          dict(fail_span=[-1, 5.3], suspect_span=[-0.9, 0.1], _alphabet="f32")],
     "valid_range_test": [dict(valid_span=[1, 3]), dict(valid_span=[None, 3], end_inclusive=True)],
     "climatology_test": [dict(config=[dict(tspan=[1, 1], period="month", vspan=[0, 2], zspan=[0, 7]),
                                       dict(tspan=["2020-01-01T00:01:00", "2020-01-01T00:02:00"], vspan=[2, 5])])],
-    "spike_test": [dict(suspect_threshold=0.5, fail_threshold=1.5)],
+    "spike_test": [dict(suspect_threshold=0.5, fail_threshold=1.5),
+                   # magnitudes at which float32 arithmetic on the neighbours is no longer exact
+                   dict(suspect_threshold=1.5, fail_threshold=3, _alphabet="big")],
     "rate_of_change_test": [dict(threshold=0.02), dict(threshold=1.5, _step=1.5), dict(threshold=0.9, _step=2.25)],
     "flat_line_test": [dict(suspect_threshold=60, fail_threshold=120, tolerance=1)],
     "attenuated_signal_test": [dict(suspect_threshold=1.2, fail_threshold=0.4), dict(suspect_threshold=1.2, fail_threshold=0.4, test_period=120, check_type="range")],
@@ -241,6 +243,8 @@ def run_task(task, acc):
     cfg = TESTS[name][ci]
     spec = G.SPECS[name]
     alphabet = (1.0, 3.0, MISS) if name != "pressure_increasing_test" else (1.0, 3.0, 2.0)
+    if cfg.get("_alphabet") == "big":
+        alphabet = (float(2 ** 24), float(2 ** 24 + 2), float(2 ** 24 + 4), MISS)
     if cfg.get("_alphabet") == "f32":
         alphabet = tuple(float(np.float32(v)) for v in (0.1, -0.9, 5.3)) + (MISS,)
     data_axes = [a for a in ("inp", "lon", "lat", "zinp") if a in logical_inputs(name, [1.0])]
